@@ -114,6 +114,23 @@ class Grammar:
                 self._build_parser(fn)
         self._mark_lexemes()
 
+    def _named_conversion(self, f):
+        """`map(p, name)` with `name` a private conversion function of the crate whose body is a single expression over its
+        parameter is the closure `|x| body` (a closure extracted into a function must read the same)"""
+        if f.get('k') != 'path' or f['p'] not in self.fns:
+            return f
+        fn = self.fns[f['p']]
+        if fn.kind != 'other' or sx.render_ty(fn.ret).replace(' ', '') in ('Locate', 'Span'):
+            return f        # Span -> Locate conversions are the lexeme layer's own vocabulary (G4 decides them)
+        ps = fn.item['sig']['params']
+        body = fn.item.get('body')
+        if len(ps) != 1 or ps[0].get('k') != 'typed' or not body:
+            return f
+        st = body['stmts']
+        if len(st) != 1 or st[0]['k'] != 'expr' or st[0].get('semi'):
+            return f
+        return {'k': 'closure', 'move': False, 'params': [ps[0]['pat']], 'body': st[0]['e'], 'l': f.get('l'), 'from_fn': f['p']}
+
     def _mark_lexemes(self):
         """lexeme = returns Locate/Span, or joins fragments with `concat` itself or through a local helper function"""
         direct = {}
@@ -218,7 +235,7 @@ class Grammar:
         if last == 'map':
             if len(args) != 2:
                 return self._unm(fn, e)
-            return {'op': 'map', 'p': P(args[0]), 'f': args[1], 'l': ln}
+            return {'op': 'map', 'p': P(args[0]), 'f': self._named_conversion(args[1]), 'l': ln}
         if last == 'terminated':
             if len(args) != 2:
                 return self._unm(fn, e)
